@@ -28,11 +28,13 @@ structure M where
   ended : AMap Nat Nat         -- terminate events per name
   calls : AMap Nat (Nat × Nat) -- parked TerminateSession calls: tag → (name, address being released)
   acalls : AMap Nat Nat        -- AssignAddress calls held inside the allocator call: tag → name
+  relFails : Bool              -- the allocator's ReleaseIPv4 / ReleaseIPv6 fails (fault switch of the harness stub)
+  relf : AMap Nat Nat          -- failed release calls per address
   deriving Repr
 
 def init : M :=
   { sessions := [], byMac := [], byIp := [], owner := [], rel := [], allocs := [], ended := [], calls := [],
-    acalls := [] }
+    acalls := [], relFails := false, relf := [] }
 
 def bump (m : AMap Nat Nat) (k : Nat) : AMap Nat Nat := AMap.insert m k ((AMap.lookup m k).getD 0 + 1)
 def count (m : AMap Nat Nat) (k : Nat) : Nat := (AMap.lookup m k).getD 0
@@ -55,6 +57,14 @@ def create (s : M) (n mac : Nat) : M × Res :=
     (fix 'AssignAddress re-validates the session after the allocator call') -/
 def bounce (s : M) (a : Nat) : M := { s with allocs := bump s.allocs a, rel := bump s.rel a }
 
+/-- the same hand-back when the allocator's release FAILS: the manager logs a warning and reports the same error, the
+    allocator keeps the address as handed to that session (it was never told otherwise) — code as it is, finding
+    KF-submgr-release-failed -/
+def bounceFailed (s : M) (a n : Nat) : M :=
+  { s with allocs := bump s.allocs a, owner := AMap.insert s.owner a n, relf := bump s.relf a }
+
+def bounceCall (s : M) (a n : Nat) : M := if s.relFails then bounceFailed s a n else bounce s a
+
 /-- AssignAddress from the allocator call on.  The first critical section found the session; the allocator call runs
     without the manager lock; the second critical section looks the session up AGAIN: it writes the address only to a
     session that is still there and not terminating, otherwise it gives the address back and reports failure. -/
@@ -63,9 +73,9 @@ def assignLate (s : M) (n : Nat) : M × Res :=
   | none => (s, .exhausted)
   | some a =>
     match AMap.lookup s.sessions n with
-    | none => (bounce s a, .gone)
+    | none => (bounceCall s a n, .gone)
     | some x =>
-      if x.terminating then (bounce s a, .gone)
+      if x.terminating then (bounceCall s a n, .gone)
       else
         ({ s with owner := AMap.insert s.owner a n, allocs := bump s.allocs a,
                   sessions := AMap.insert s.sessions n { x with ip := some a },
@@ -87,6 +97,11 @@ def tBegin (s : M) (n : Nat) : Except Res (M × Sess) :=
 /-- the allocator's ReleaseIPv4 -/
 def release (s : M) (a : Nat) : M := { s with rel := bump s.rel a, owner := AMap.erase s.owner a }
 
+/-- ReleaseIPv4 / ReleaseIPv6 as TerminateSession calls it: an error is logged and otherwise IGNORED (the allocator,
+    like allocator.PoolAllocator and DistributedAllocator when their store fails, has changed nothing: the address
+    stays handed out) — code as it is, finding KF-submgr-release-failed -/
+def releaseCall (s : M) (a : Nat) : M := if s.relFails then { s with relf := bump s.relf a } else release s a
+
 /-- second critical section: drop the indexes, delete the session, emit the terminate event -/
 def tFinish (s : M) (n : Nat) (x : Sess) : M :=
   { s with byMac := AMap.erase s.byMac x.mac,
@@ -105,6 +120,7 @@ inductive Op where
   | abegin (tag n : Nat)           -- an AssignAddress call run up to (into) the allocator call
   | aresume (tag : Nat)            -- the allocator call returns and the held AssignAddress runs to its end
   | touch (n : Nat)                -- ActivateSession / SetWalledGarden / ClearWalledGarden: they write Session.State only
+  | fault (on : Bool)              -- the allocator's release calls fail from now on / work again
   deriving Repr, DecidableEq
 
 def step (s : M) : Op → M × Res
@@ -116,7 +132,7 @@ def step (s : M) : Op → M × Res
     | .error r => (s, r)
     | .ok (s1, x) =>
       let s2 := match x.ip with
-        | some a => release s1 a
+        | some a => releaseCall s1 a
         | none => s1
       (tFinish s2 n x, .ok)
   | .tbegin tag n =>
@@ -130,6 +146,7 @@ def step (s : M) : Op → M × Res
   | .touch n =>
     -- the termination mark is a flag of its own (fix ac0cfa4): nothing these calls write is part of this model
     if (AMap.lookup s.sessions n).isSome then (s, .ok) else (s, .notfound)
+  | .fault on => ({ s with relFails := on }, .ok)
   | .abegin tag n =>
     if (AMap.lookup s.acalls tag).isSome then (s, .badop) else
     match AMap.lookup s.sessions n with
@@ -143,7 +160,7 @@ def step (s : M) : Op → M × Res
     match AMap.lookup s.calls tag with
     | none => (s, .badop)
     | some (n, a) =>
-      let s1 := release { s with calls := AMap.erase s.calls tag } a
+      let s1 := releaseCall { s with calls := AMap.erase s.calls tag } a
       -- the call continues with the session object it looked up in `begin`
       match AMap.lookup s1.sessions n with
       | some x => (tFinish s1 n x, .ok)
@@ -166,16 +183,59 @@ def reassigns (s : M) (n : Nat) : Bool :=
   | some x => x.ip.isSome && !x.terminating
   | none => false
 
-/-- Histories in which AssignAddress never hands a second address to a session that holds one: judged at the moment
-    the allocator call returns (`assign`, `aresume`).  Outside this set lies the recorded finding
-    KF-submgr-reassign-leak (the first address is never released).  Assignments racing a termination — in either
-    order, at either unlock window — are INSIDE the set since the fix of KF-submgr-assign-race. -/
+/-- the allocator call of AssignAddress returns for session `n`: does the manager hand the address straight back
+    (a release call)? -/
+def bounces (s : M) (n : Nat) : Bool :=
+  (firstFree s.owner).isSome &&
+    (match AMap.lookup s.sessions n with
+      | none => true
+      | some x => x.terminating)
+
+/-- does the operation make the manager call the allocator's ReleaseIPv4 / ReleaseIPv6 in state `s`? -/
+def relCalled (s : M) : Op → Bool
+  | .term n =>
+    s.calls.isEmpty &&
+      (match tBegin s n with
+        | .ok (_, x) => x.ip.isSome
+        | .error _ => false)
+  | .tresume tag => (AMap.lookup s.calls tag).isSome
+  | .assign n => (AMap.lookup s.sessions n).isSome && bounces s n
+  | .aresume tag =>
+    (match AMap.lookup s.acalls tag with
+      | some n => bounces s n
+      | none => false)
+  | _ => false
+
+/-- the side condition of `Valid` for one operation -/
+def okOp (s : M) (op : Op) : Prop :=
+  (match op with
+   | .assign n => reassigns s n = false
+   | .aresume tag =>
+     (match AMap.lookup s.acalls tag with
+       | some n => reassigns s n = false
+       | none => True)
+   | _ => True) ∧
+  (relCalled s op = true → s.relFails = false)
+
+instance (s : M) (op : Op) : Decidable (okOp s op) := by
+  unfold okOp
+  cases op <;> simp only <;> try infer_instance
+  all_goals (split <;> infer_instance)
+
+/-- Histories in which (1) AssignAddress never hands a second address to a session that holds one: judged at the
+    moment the allocator call returns (`assign`, `aresume`) — outside lies the recorded finding KF-submgr-reassign-leak
+    (the first address is never released) — and (2) no release call the manager makes to the allocator FAILS — outside
+    lies the recorded finding KF-submgr-release-failed (the manager forgets the address all the same).  Assignments
+    racing a termination — in either order, at either unlock window — are INSIDE the set since the fix of
+    KF-submgr-assign-race; so is a fault switch that is on while no release call is made. -/
 def Valid : M → List Op → Prop
   | _, [] => True
+  | s, op :: ops => okOp s op ∧ Valid (step s op).1 ops
+
+instance decValid : (s : M) → (ops : List Op) → Decidable (Valid s ops)
+  | _, [] => isTrue trivial
   | s, op :: ops =>
-    (match op with
-     | .assign n => reassigns s n = false
-     | .aresume tag => ∀ n, AMap.lookup s.acalls tag = some n → reassigns s n = false
-     | _ => True) ∧ Valid (step s op).1 ops
+    have := decValid (step s op).1 ops
+    by unfold Valid; infer_instance
 
 end Bng.SubMgr
